@@ -27,6 +27,7 @@ def signature_facts(st, sg):
     j = z3.Int("j!sg")
     return [z3.Length(nm) == z3.Length(ps),
             z3.ForAll([j], z3.Implies(z3.And(j >= 0, j < z3.Length(ps)), nm[j] == attr(st, ps[j], "name")), patterns=[ps[j]]),
+            z3.ForAll([j], z3.Implies(z3.And(j >= 0, j < z3.Length(nm)), nm[j] != NONE), patterns=[nm[j]]),  # names are str objects
             distinct_elements(nm), PARAMS(sg) > 2, PARAMS(sg) < st.ctr, sg > 2, sg < st.ctr]
 
 
